@@ -3,7 +3,8 @@ import Modbus.Lemmas.Predict
 Helper lemmas for C07 (decoders are total): `≠ .panic` through `bind`/`map`, the checked reads
 behind their guards, the PDU decoders, the frame extractors, the generic scan loop.
 -/
-namespace Modbus
+namespace Modbus.Total
+open Modbus.Predict
 
 /-! ### `Res` plumbing -/
 
@@ -393,4 +394,4 @@ theorem excThenRsp_ne_panic {α} (pdu : Bytes) (f : ExceptionResponse → α) (g
   | panic => exact absurd h this
   | err e => exact Res.map_ne_panic (Response.decode_ne_panic pdu)
 
-end Modbus
+end Modbus.Total
